@@ -37,9 +37,9 @@ def gen_cases(tier, seed):
     bmax, xmax = (24, 300) if tier == 'quick' else (64, 2000)
     for b in range(1, bmax + 1):
         cases.append({'kind': 'grid', 'b': b, 'xmax': xmax})
-    for i in range(8 if tier == 'quick' else 64):
+    for i in range(8 if tier == 'quick' else 400):
         cases.append({'kind': 'large', 'i': i, 'seed': seed})
-    for i in range(40 if tier == 'quick' else 400):
+    for i in range(40 if tier == 'quick' else 4000):
         cases.append({'kind': 'table', 'i': i, 'seed': seed})
     return cases
 
